@@ -24,12 +24,12 @@ fn corpus(tier: Tier) -> Vec<(String, PProblem)> {
             continue;
         }
         let per = match (name, tier) {
-            ("core", Tier::Quick) => 40,
+            ("core", Tier::Quick) => 80,
             ("core", _) => 400,
             ("places", _) => 400,
             // reloads, shared resources, breaks, vehicles with two shifts: every problem
             ("cond", _) => 400,
-            (_, Tier::Quick) => 8,
+            (_, Tier::Quick) => 16,
             _ => 60,
         };
         let candidates: Vec<PProblem> = problems.into_iter().filter(|p| p.jobs.len() >= 2).collect();
